@@ -340,6 +340,80 @@ func c09Facts2(c *Ctx) error {
 	wsrc2 := c.Src(wf.Body)
 	b("worthy_guards_zero_total", strings.Contains(wsrc2, "TotalShares.IsZero()") || strings.Contains(wsrc2, "TotalShares.IsPositive()"))
 	b("worthy_first_snapshot_short_circuits", strings.Contains(wsrc2, "if currentSnapshot == nil {"))
+	// ---- x/paloma/keeper/keeper.go: the version gate's two comparisons (anything else is an unknown shape) ----
+	pf, err := c.Parse("x/paloma/keeper/keeper.go")
+	if err != nil {
+		return err
+	}
+	cv := FindFunc(pf, "Keeper", "CheckChainVersion")
+	if cv == nil {
+		return fmt.Errorf("CheckChainVersion not found")
+	}
+	var switches []*ast.SwitchStmt
+	ast.Inspect(cv.Body, func(n ast.Node) bool {
+		if fl, ok := n.(*ast.FuncLit); ok && fl != nil {
+			return false
+		}
+		if sw, ok := n.(*ast.SwitchStmt); ok {
+			switches = append(switches, sw)
+		}
+		return true
+	})
+	if len(switches) != 2 {
+		return fmt.Errorf("CheckChainVersion: %d switch statements, expected the major.minor switch and the version switch", len(switches))
+	}
+	clauseShape := func(sw *ast.SwitchStmt) []string {
+		var out []string
+		for _, st := range sw.Body.List {
+			cc := st.(*ast.CaseClause)
+			var vals []string
+			for _, e := range cc.List {
+				vals = append(vals, c.Src(e))
+			}
+			lab := "default"
+			if cc.List != nil {
+				lab = strings.Join(vals, ",")
+			}
+			act := "pass"
+			if len(Calls(cc, "abandon")) > 0 {
+				act = "abandon"
+			} else {
+				for _, b := range cc.Body {
+					if _, ok := b.(*ast.ReturnStmt); ok {
+						act = "return"
+					}
+				}
+			}
+			out = append(out, lab+":"+act)
+		}
+		return out
+	}
+	if got := c.Src(switches[0].Tag); got != "semver.Compare(semver.MajorMinor(k.AppVersion), semver.MajorMinor(govVer))" {
+		return fmt.Errorf("CheckChainVersion: unknown major.minor comparison %q", got)
+	}
+	if got := strings.Join(clauseShape(switches[0]), ";"); got != "0:pass;default:abandon" {
+		return fmt.Errorf("CheckChainVersion: unknown major.minor switch shape %q", got)
+	}
+	if got := c.Src(switches[1].Tag); got != "semver.Compare(k.AppVersion, govVer)" {
+		return fmt.Errorf("CheckChainVersion: unknown version comparison %q (the model compares in semantic-version order)", got)
+	}
+	if got := strings.Join(clauseShape(switches[1]), ";"); got != "0,1:return;-1:abandon" {
+		return fmt.Errorf("CheckChainVersion: unknown version switch shape %q", got)
+	}
+	cvsrc := c.Src(cv.Body)
+	imp := false
+	for _, im := range pf.Imports {
+		if im.Path.Value == `"golang.org/x/mod/semver"` && im.Name == nil {
+			imp = true
+		}
+	}
+	if !imp {
+		return fmt.Errorf("x/paloma/keeper/keeper.go: `semver` is not golang.org/x/mod/semver")
+	}
+	b("version_gate_compares_semver", true)
+	b("version_gate_skips_without_upgrade", strings.Contains(cvsrc, "if len(govVer) == 0 || govHeight == 0 {\n\t\treturn"))
+	b("version_gate_adds_v_prefix", strings.Contains(cvsrc, `if !strings.HasPrefix(govVer, "v") {`))
+
 	c.Info("second_round_facts", map[string]any{"attest_continue": contFound, "validates": validates, "fee_readers": readers, "guarded_fee_readers": guardedReaders, "skyway_steps": steps})
 	return nil
 }
